@@ -41,6 +41,7 @@ CONSTANTS
     Lims,            \* resource limits requested (None = no limit)
     Uris, Vals,      \* objects published
     Updatable,       \* <<server, handle>> pairs whose identity may change
+    Suspendable,     \* <<server, child>> pairs that may be suspended
     Mutant           \* "none", or a deliberately wrong server model used to
                      \* show that the properties are not vacuous
 
@@ -69,6 +70,7 @@ AllCaKeys == {"a1", "a2", "b1"}
 AllLims == {None, {"r1"}, {"r3"}}
 AllUris == {"p1/x", "p1/y", "p2/x", "zz/x"}
 AllVals == {"d1", "d2"}
+AllSuspendable == {<<"P", "c1">>, <<"P", "c2">>, <<"O", "c1">>}
 AllUpdatable == {<<"P", "c1">>, <<"P", "c2">>, <<"O", "c1">>,
                  <<"R", "p1">>, <<"R", "p2">>, <<"P", "P">>, <<"O", "O">>}
 
@@ -105,9 +107,13 @@ VARIABLES
     srv,    \* srv[s]: generation of the identity key of server s
     iss,    \* iss[s][c]: certificates <<ckey, resources>> issued to child c
     pub,    \* pub[p]: objects <<uri, content>> published by publisher p
-    seen    \* seen[s][c]: exchanges recorded in the status of child c
+    seen,   \* seen[s][c]: exchanges recorded in the status of child c
+    susp,   \* susp[s][c]: child c is suspended (inactive); any request that
+            \* is acted upon re-activates it first
+    held    \* held[s][c]: certificates of a suspended child (withdrawn
+            \* while suspended, back when it is re-activated)
 
-vars == <<reg, srv, iss, pub, seen>>
+vars == <<reg, srv, iss, pub, seen, susp, held>>
 
 Init ==
     /\ reg = Reg0
@@ -115,6 +121,8 @@ Init ==
     /\ iss = [P |-> [c1 |-> {}, c2 |-> {}], O |-> [c1 |-> {}]]
     /\ pub = [p1 |-> {}, p2 |-> {}]
     /\ seen = [P |-> [c1 |-> 0, c2 |-> 0], O |-> [c1 |-> 0]]
+    /\ susp = [P |-> [c1 |-> FALSE, c2 |-> FALSE], O |-> [c1 |-> FALSE]]
+    /\ held = [P |-> [c1 |-> {}, c2 |-> {}], O |-> [c1 |-> {}]]
 
 Registered(s, h) == IF h \in DOMAIN reg[s] THEN reg[s][h] ELSE "none"
 
@@ -123,7 +131,9 @@ Valid(m) ==
     /\ m.tam = "none"
     /\ Registered(m.tgt, m.snd) = m.key
 
-KeysOf(s, c) == {x[1] : x \in iss[s][c]}
+\* the certificates of a child, whether it is suspended or not
+Own(s, c) == IF susp[s][c] THEN held[s][c] ELSE iss[s][c]
+KeysOf(s, c) == {x[1] : x \in Own(s, c)}
 OthersKeys(s, c) == UNION {KeysOf(s, d) : d \in DOMAIN iss[s] \ {c}}
 UrisOf(p) == {x[1] : x \in pub[p]}
 
@@ -140,8 +150,12 @@ OthersUntouched(m) ==
                  (s # m.tgt \/ d # m.snd) =>
                      /\ iss'[s][d] = iss[s][d]
                      /\ seen'[s][d] = seen[s][d]
+                     /\ susp'[s][d] = susp[s][d]
+                     /\ held'[s][d] = held[s][d]
             /\ seen'[m.tgt][m.snd] >= seen[m.tgt][m.snd]
-       ELSE /\ iss' = iss /\ seen' = seen
+            \* the sender has shown that it is active
+            /\ ~susp'[m.tgt][m.snd] /\ held'[m.tgt][m.snd] = {}
+       ELSE /\ iss' = iss /\ seen' = seen /\ susp' = susp /\ held' = held
             /\ \A q \in DOMAIN pub : q # m.snd => pub'[q] = pub[q]
 
 \* An accepted (performed) request: only the sender's own things, within
@@ -149,7 +163,7 @@ OthersUntouched(m) ==
 PerformOk(m) ==
     /\ OthersUntouched(m)
     /\ IF m.p = "ud"
-       THEN LET s == m.tgt  c == m.snd  old == iss[s][c] IN
+       THEN LET s == m.tgt  c == m.snd  old == Own(s, c) IN
             CASE m.kind = "list" -> iss'[s][c] = old
               [] m.kind = "issue" ->
                     \E R \in (SUBSET Ent[s][c]) \ {{}} :
@@ -172,7 +186,7 @@ PerformOk(m) ==
 \* of the sender may change.
 DeclineOk(m) ==
     /\ OthersUntouched(m)
-    /\ IF m.p = "ud" THEN iss'[m.tgt][m.snd] = iss[m.tgt][m.snd]
+    /\ IF m.p = "ud" THEN iss'[m.tgt][m.snd] = Own(m.tgt, m.snd)
                      ELSE pub'[m.snd] = pub[m.snd]
 
 RefuseOk == UNCHANGED vars
@@ -229,15 +243,17 @@ Accepts(m) ==
 ModelKey(m) == IF Mutant = "stalekey" THEN m.tgt \o "1" ELSE CurrentKey(m)
 
 Bump(m) == IF m.p = "ud"
-           THEN seen' = [seen EXCEPT ![m.tgt][m.snd] = @ + 1]
-           ELSE seen' = seen
+           THEN /\ seen' = [seen EXCEPT ![m.tgt][m.snd] = @ + 1]
+                /\ susp' = [susp EXCEPT ![m.tgt][m.snd] = FALSE]
+                /\ held' = [held EXCEPT ![m.tgt][m.snd] = {}]
+           ELSE seen' = seen /\ susp' = susp /\ held' = held
 
 Perform(m) ==
     /\ Bump(m) /\ UNCHANGED <<reg, srv>>
     /\ IF m.p = "ud"
        THEN /\ pub' = pub
-            /\ LET s == m.tgt  c == m.snd  old == iss[s][c] IN
-               CASE m.kind = "list" -> iss' = iss
+            /\ LET s == m.tgt  c == m.snd  old == Own(s, c) IN
+               CASE m.kind = "list" -> iss' = [iss EXCEPT ![s][c] = old]
                  [] m.kind = "issue" ->
                       iss' = [iss EXCEPT ![s][c] =
                           {x \in old : x[1] # m.ckey} \cup
@@ -256,7 +272,11 @@ Perform(m) ==
                  [] m.kind = "withdraw" ->
                       pub' = [pub EXCEPT ![q] = {x \in old : x[1] # m.uri}]
 
-Decline(m) == Bump(m) /\ UNCHANGED <<reg, srv, iss, pub>>
+Decline(m) ==
+    /\ Bump(m) /\ UNCHANGED <<reg, srv, pub>>
+    /\ iss' = IF m.p = "ud"
+              THEN [iss EXCEPT ![m.tgt][m.snd] = Own(m.tgt, m.snd)]
+              ELSE iss
 
 \* outcome of the model for message m: <<out, rk>>
 Outcome(m) ==
@@ -277,12 +297,12 @@ ChildId(s, c) ==
     /\ s \in CaServers /\ c \in DOMAIN reg[s] /\ <<s, c>> \in Updatable
     /\ reg[s][c] # NextKey[s][c]
     /\ reg' = [reg EXCEPT ![s][c] = NextKey[s][c]]
-    /\ UNCHANGED <<srv, iss, pub, seen>>
+    /\ UNCHANGED <<srv, iss, pub, seen, susp, held>>
 
 ServerId(s) ==
     /\ s \in CaServers /\ srv[s] < MaxGen /\ <<s, s>> \in Updatable
     /\ srv' = [srv EXCEPT ![s] = @ + 1]
-    /\ UNCHANGED <<reg, iss, pub, seen>>
+    /\ UNCHANGED <<reg, iss, pub, seen, susp, held>>
 
 \* a publisher is removed and registered again with a new identity: its
 \* objects are gone (administrative action, not a protocol request)
@@ -291,12 +311,23 @@ PubReReg(q) ==
     /\ reg["R"][q] # NextKey["R"][q]
     /\ reg' = [reg EXCEPT !["R"][q] = NextKey["R"][q]]
     /\ pub' = [pub EXCEPT ![q] = {}]
-    /\ UNCHANGED <<srv, iss, seen>>
+    /\ UNCHANGED <<srv, iss, seen, susp, held>>
+
+\* an inactive child is suspended by the parent (administrative action):
+\* its certificates are withdrawn until it shows up again
+Suspend(s, c) ==
+    /\ <<s, c>> \in Suspendable /\ ~susp[s][c]
+    /\ iss[s][c] # {}      \* (krill: no-op for a child without certificates)
+    /\ susp' = [susp EXCEPT ![s][c] = TRUE]
+    /\ held' = [held EXCEPT ![s][c] = iss[s][c]]
+    /\ iss' = [iss EXCEPT ![s][c] = {}]
+    /\ UNCHANGED <<reg, srv, pub, seen>>
 
 IdentityUpdate ==
     \/ \E s \in CaServers : \E c \in DOMAIN reg[s] : ChildId(s, c)
     \/ \E s \in CaServers : ServerId(s)
     \/ \E q \in DOMAIN reg["R"] : PubReReg(q)
+    \/ \E x \in Suspendable : Suspend(x[1], x[2])
 
 Next == (\E m \in Msgs : Request(m)) \/ IdentityUpdate
 
@@ -310,9 +341,13 @@ TypeOK ==
 \* State form of "within its entitlement or base URI".
 WithinScope ==
     /\ \A s \in CaServers : \A c \in DOMAIN iss[s] :
-         \A x \in iss[s][c] : x[2] \subseteq Ent[s][c] /\ x[2] # {}
+         \A x \in iss[s][c] \cup held[s][c] :
+            x[2] \subseteq Ent[s][c] /\ x[2] # {}
     /\ \A q \in DOMAIN pub : \A x \in pub[q] : x[1] \in Base[q]
-    \* a certificate key is held by one child of a server only
-    /\ \A s \in CaServers : \A c, d \in DOMAIN iss[s] :
-         c # d => KeysOf(s, c) \cap KeysOf(s, d) = {}
+
+\* a certificate key is held by one child of a server only (in the model;
+\* on the real code a violation shows up as EffectsWithinSender)
+KeysExclusive ==
+    \A s \in CaServers : \A c, d \in DOMAIN iss[s] :
+        c # d => KeysOf(s, c) \cap KeysOf(s, d) = {}
 =============================================================================
